@@ -60,9 +60,9 @@ def g_tokens(maxlen, flags="n", tables=None, wrap=True):
 # G-pieces: exhaustive piece sequences for character data (C04) and attribute values (C05)
 # ---------------------------------------------------------------------------------------------
 TEXT_ENTITIES = [("e0", ""), ("e1", "E"), ("e2", "\r"), ("e3", "\nE"), ("e4", "E\r"), ("e5", "p\r\nq"), ("e6", "&e1;\n"),
-                 ("e7", "<![CDATA[y]]>"), ("e8", "<![CDATA[\r]]>w")]   # values that START with a CDATA section: character data although they begin with '<'
+                 ("e7", "<![CDATA[y]]>"), ("e8", "<![CDATA[\r]]>w"), ("e9", "\ufeffv")]   # values that START with a CDATA section: character data although they begin with '<'
 # (source text, kind); kinds: lit, ref (character reference / predefined), cdata, ent
-TEXT_PIECES = [("a", "lit"), ("\n", "lit"), ("\r", "lit"), ("\t", "lit"),
+TEXT_PIECES = [("a", "lit"), ("\n", "lit"), ("\r", "lit"), ("\t", "lit"), ("\ufeff", "lit"),   # U+FEFF is an ordinary Char except at the very start of the input
                ("&#10;", "ref"), ("&#13;", "ref"), ("&#9;", "ref"), ("&#x41;", "ref"), ("&amp;", "ref"),
                ("<![CDATA[x]]>", "cdata"), ("<![CDATA[]]>", "cdata"), ("<![CDATA[\r]]>", "cdata"), ("<![CDATA[\n]]>", "cdata"),
                ("<![CDATA[\r\n]]>", "cdata")] + [("&%s;" % n, "ent") for n, _ in TEXT_ENTITIES]
@@ -87,9 +87,9 @@ def g_pieces_text(maxlen, positions=(0, 1, 2)):
     return out
 
 
-ATTR_ENTITIES = [("z", ""), ("t", "\t"), ("c", "\r\n&#10;"), ("n", "&t;\r"), ("d", "&#13;&#10;")]
-ATTR_PIECES = ["a", " ", "\t", "\n", "\r", "&#9;", "&#10;", "&#13;", "&#x20;", "&amp;", "Q",
-               "&z;", "&t;", "&c;", "&n;", "&d;"]
+ATTR_ENTITIES = [("z", ""), ("t", "\t"), ("c", "\r\n&#10;"), ("n", "&t;\r"), ("d", "&#13;&#10;"), ("f", "\ufeffw")]
+ATTR_PIECES = ["a", " ", "\t", "\n", "\r", "&#9;", "&#10;", "&#13;", "&#x20;", "&amp;", "Q", "\ufeff",
+               "&z;", "&t;", "&c;", "&n;", "&d;", "&f;"]
 ATTR_DTD = "<!DOCTYPE r [" + "".join('<!ENTITY %s "%s">' % (n, v) for n, v in ATTR_ENTITIES) + "]>"
 
 
@@ -639,3 +639,43 @@ def g_ent_charrefs_free(flags="c"):
 
 def ent_doc_dq(decls, body):
     return "<!DOCTYPE r [" + "".join("<!ENTITY %s \"%s\">" % (n, v) for n, v in decls) + "]>" + body
+
+
+
+# ---------------------------------------------------------------------------------------------
+# declarations that compete for a name: re-declarations (the first binds), parameter entities of the same name,
+# and the five predefined names declared in the form XML 1.0 section 4.6 prescribes
+# ---------------------------------------------------------------------------------------------
+def g_ent_competing(flags="nc"):
+    out = []
+    # several names, some declared twice with different literals, in an order that is not the sorted one
+    decls = [("m", "M1"), ("b", "B1"), ("z", "Z1"), ("b", "B2"), ("a", "A1"), ("m", "M2"), ("a", "A2"), ("zz", "&b;|&m;"), ("b", "B3")]
+    dtd = "<!DOCTYPE r [" + "".join("<!ENTITY %s '%s'>" % d for d in decls) + "]>"
+    first = {}
+    for n, v in decls:
+        first.setdefault(n, v)
+    for n in ("m", "b", "z", "a"):
+        out.append(Case(dtd + "<r k='x&%s;y'>p&%s;q</r>" % (n, n), flags, True,
+                        meta={"gen": "redeclared-first-binds", "name": n,
+                              "expect_content": ["Q 1 - x72", "A 1 0 - x6b " + spec.hexs("x" + first[n] + "y"), "X 2 " + spec.hexs("p" + first[n] + "q")]}))
+    out.append(Case(dtd + "<r k='&zz;'>&zz;</r>", flags, True,
+                    meta={"gen": "redeclared-first-binds-nested",
+                          "expect_content": ["Q 1 - x72", "A 1 0 - x6b " + spec.hexs("B1|M1"), "X 2 " + spec.hexs("B1|M1")]}))
+    # a parameter entity never binds a general name, whatever the order
+    for order in (0, 1):
+        ds = ["<!ENTITY % v \"pe text\">", "<!ENTITY v 'a b'>"]
+        if order:
+            ds.reverse()
+        out.append(Case("<!DOCTYPE r [" + "".join(ds) + "]><r k='&v;'>&v;</r>", flags, True,
+                        meta={"gen": "pe-vs-ge", "order": order,
+                              "expect_content": ["Q 1 - x72", "A 1 0 - x6b " + spec.hexs("a b"), "X 2 " + spec.hexs("a b")]}))
+    out.append(Case("<!DOCTYPE r [<!ENTITY % v 'pe'>]><r k='&v;'/>", flags, True, meta={"gen": "pe-only", "illformed": "reference to a name declared only as a parameter entity"}))
+    out.append(Case("<!DOCTYPE r [<!ENTITY % v 'pe'>]><r>&v;</r>", flags, True, meta={"gen": "pe-only", "illformed": "reference to a name declared only as a parameter entity"}))
+    # the predefined entities declared as section 4.6 prescribes: references still denote the five characters
+    pre = ("<!ENTITY lt \"&#38;#60;\"><!ENTITY gt \"&#62;\"><!ENTITY amp \"&#38;#38;\"><!ENTITY apos \"&#39;\"><!ENTITY quot \"&#34;\">")
+    out.append(Case("<!DOCTYPE r [" + pre + "]><r k='1&lt;2&amp;3&gt;4&apos;5&quot;6'>a&lt;b&amp;c&gt;d&apos;e&quot;f</r>", flags, True,
+                    meta={"gen": "predefined-declared",
+                          "expect_content": ["Q 1 - x72", "A 1 0 - x6b " + spec.hexs("1<2&3>4'5\"6"), "X 2 " + spec.hexs("a<b&c>d'e\"f")]}))
+    out.append(Case("<!DOCTYPE r [" + pre + "<!ENTITY w 'x&lt;y&amp;z'>]><r>&w;</r>", flags, True,
+                    meta={"gen": "predefined-declared-nested", "expect_content": ["Q 1 - x72", "X 2 " + spec.hexs("x<y&z")]}))
+    return out
